@@ -45,7 +45,7 @@ type Prop struct {
 
 var registry = map[string]*Prop{}
 
-func Register(p *Prop) { registry[p.ID] = p }
+func Register(p *Prop)       { registry[p.ID] = p }
 func Lookup(id string) *Prop { return registry[id] }
 func IDs() []string {
 	var ids []string
@@ -232,6 +232,7 @@ func (k *Case) TimeViol(key, what string, witness any) {
 			return
 		}
 	}
+	k.Ctx.hangs++
 	k.Ctx.hung = append(k.Ctx.hung, hungCase{k.List, k.Idx, k.fn})
 	k.Ctx.mu.Unlock()
 }
@@ -373,7 +374,7 @@ func (c *Ctx) Finish() *ShardResult {
 	c.hung = nil
 	c.mu.Unlock()
 	for i, h := range hung {
-		if i >= maxHangs+2 {
+		if i >= 2 {
 			break
 		}
 		c.runCase(h.list, h.idx, h.fn, true)
